@@ -13,6 +13,7 @@ import MinizProof.Model.DeflOut
 import MinizProof.Model.VecLoops
 import MinizProof.Model.CStream
 import MinizProof.Model.InflBytes
+import MinizProof.Driver.EncCheck
 namespace Driver
 open Spec
 
@@ -125,6 +126,14 @@ def opEnc (a : Acc) (ln : Nat) (l : Line) : Acc := Id.run do
         a := a.fail ln l "rt" s!"spec-decoded output differs from input at {firstDiff d.out inp} (sizes {d.out.size} vs {inp.size})"
       if d.bytes != comp.size then
         a := a.fail ln l "rt" s!"stream ends at byte {d.bytes} but {comp.size} bytes were emitted"
+  -- the encoder-specification tie: token areas of all Huffman blocks, bit for bit
+  if d.verdict == "accept" && comp.size ≤ 300000 then
+    for b in d.blocks do
+      if b.btype == 1 || b.btype == 2 then
+        a := a.bump "enc_blocks_bitchecked"
+        match checkBlockTokens comp b with
+        | none => pure ()
+        | some msg => a := a.diff ln l "encbits" s!"block at bit {b.bitStart} (type {b.btype}): {msg}"
   if d.verdict == "accept" then
    let cfg := s!"level={l.get "level"} strategy={l.get "strategy"} fmt={l.get "fmt"} wb={l.get "wb"}"
    if checks.contains "mode" then
